@@ -147,7 +147,7 @@ pub fn custom_op(sh: &Rc<Shared>, uid: usize, kind: &CustomKind, coef: &[f64], s
                     s
                 })
                 .collect(),
-            CustomKind::Prod2 | CustomKind::Prod2Crate => (0..n).map(|i| x[0].values()[i] * x[1].values()[i]).collect(),
+            CustomKind::Prod2 | CustomKind::Prod2Crate | CustomKind::CrateFwdNoBwd => (0..n).map(|i| x[0].values()[i] * x[1].values()[i]).collect(),
             CustomKind::NestedSq => x[0].values().iter().map(|v| v * v).collect(),
         };
         Array::from((x[0].dimensions().to_vec(), vals))
@@ -176,7 +176,7 @@ pub fn custom_op(sh: &Rc<Shared>, uid: usize, kind: &CustomKind, coef: &[f64], s
                     }
                 })
                 .collect(),
-            CustomKind::Prod2 | CustomKind::Prod2Crate => (0..2)
+            CustomKind::Prod2 | CustomKind::Prod2Crate | CustomKind::CrateFwdNoBwd => (0..2)
                 .map(|i| {
                     if tracked[i] {
                         let o = children[1 - i].values();
@@ -239,6 +239,14 @@ pub fn apply_op(sh: &Rc<Shared>, uid: usize, op: &Op, a: &[&Array], any_tracked:
         Op::Reshape(d) => a[0].reshape(d.clone()),
         Op::Matmul { ta, tb } => Array::matmul((a[0], *ta), (a[1], *tb), a.get(2).copied()),
         Op::Conv { sr, sc } => a[0].conv(a[1], (*sr, *sc)),
+        Op::Cost(kind) => match kind {
+            crate::event::CostKind::Mse => (corgi::cost::mse())(a[0], a[1]),
+            crate::event::CostKind::CrossEntropy => (corgi::cost::cross_entropy())(a[0], a[1]),
+        },
+        Op::Custom { kind: CustomKind::CrateFwdNoBwd, .. } => {
+            let f: ForwardOp = Rc::new(|x: &[&Array]| x[0] * x[1]);
+            Array::op(a, f, None)
+        }
         Op::Custom { kind, coef, script } => {
             let (f, b) = custom_op(sh, uid, kind, coef, script);
             // like the built-in operations, a user operation on untracked operands records no graph
